@@ -199,7 +199,13 @@ class Runaway(Exception):
 def capped(iterable, cap=3000):
     """list(iterable), but give up (Runaway) after `cap` items: no storage in any check holds that many policies"""
     out = []
-    for x in iterable:
+    try:
+        it = iter(iterable)
+    except TypeError:
+        # a listing / search that hands back something that cannot be iterated at all (None, a bool ...)
+        raise ImplDefect('a storage read returned %r where an iterable of policies is documented' % (iterable,),
+                         {'returned': repr(iterable)[:200]})
+    for x in it:
         out.append(x)
         if len(out) > cap:
             raise Runaway('more than %d items' % cap)
